@@ -15,12 +15,7 @@ WITHOUT=$(demo)
 git apply seed/$X/patch.diff || { echo "PATCH DOES NOT APPLY"; exit 3; }
 WITH=$(demo)
 cp Cargo.toml Cargo.toml.seedbak; mkdir -p /tmp/seedbak_$ID; mv tests/seed_demo*.rs /tmp/seedbak_$ID/ 2>/dev/null
-python3 - <<'PY'
-import re
-s = open("Cargo.toml").read()
-s = re.sub(r'\n\[\[test\]\]\s*\nname = "seed_demo[^"]*"[^\[]*', "\n", s)
-open("Cargo.toml", "w").write(s)
-PY
+git checkout -q -- Cargo.toml
 SUITE=$(cargo test --workspace --no-fail-fast --offline 2>&1 | grep -E "^test result|^test .* FAILED|^error" | grep -v "^test result: ok" | tr '\n' ';')
 mv Cargo.toml.seedbak Cargo.toml; mv /tmp/seedbak_$ID/*.rs tests/ 2>/dev/null; rmdir /tmp/seedbak_$ID 2>/dev/null
 echo "demo with patch:    $WITH"; echo "demo without patch: $WITHOUT"; echo "suite non-ok lines with patch: $SUITE"
